@@ -8,6 +8,7 @@
     list (only rejection conditions and the compressor's shapes are proved). *)
 Require Import Zrs.lib.RsPrelude Zrs.model.BitIO Zrs.model.FseDec Zrs.model.HufDec Zrs.model.HufEnc.
 Require Import Zrs.proofs.C13_Huffman.
+Require Import Zrs.model.BitIO Zrs.model.BitStream Zrs.model.HufDec Zrs.proofs.C12_Stream Zrs.proofs.C13_Stream.
 Open Scope Z_scope.
 
 Theorem C13_shape_valid : forall n, 2 <= n <= 256 ->
@@ -28,6 +29,18 @@ Theorem C13_dec_accepts_only_complete_codes : forall ws dec M bits ranks idxs,
     is_pow2 (2 ^ M - wsum) = true.
 Proof. exact dec_accepts_only_complete_codes. Qed.
 
+(** the literal bit stream: what the compressor writes for a symbol list (the codes last symbol first, a 1 bit,
+    padding -- an executable model compared byte for byte with the real compressor's streams on every run) is read by
+    [huf_decode_stream] back into exactly those symbols, with the end-of-stream check satisfied; for every symbol
+    list and every table of 2^max_bits entries that resolves each used code from any window starting with it (a
+    decidable property; for the compressor's own tables see C13_encoder_decoder_agree) *)
+Theorem C13_literal_stream_roundtrip : forall t Mn, ht_max_bits t = Z.of_nat Mn -> (1 <= Mn)%nat -> ht_len t = 2 ^ Z.of_nat Mn ->
+  forall code data out, data <> [] ->
+  Forall (code_ok Mn code) data -> Forall (resolves t Mn code) data ->
+  huf_decode_stream t (huf_stream_bytes code data) out true = ROk (rev data ++ out).
+Proof. exact huffman_stream_roundtrip. Qed.
+
+Print Assumptions C13_literal_stream_roundtrip.
 Print Assumptions C13_shape_valid.
 Print Assumptions C13_enc_dec_agree.
 Print Assumptions C13_dec_rejects_big_weight.
